@@ -106,6 +106,15 @@ func h03Caps(ti *terminfo.Terminfo) []h03Cap {
 	return out
 }
 
+func h03Hex(s string) string {
+	const hx = "0123456789abcdef"
+	out := []byte{}
+	for i := 0; i < len(s); i++ {
+		out = append(out, hx[s[i]>>4], hx[s[i]&15], ' ')
+	}
+	return string(out)
+}
+
 func h03Decode(t *tScreen, b []byte, expire bool) ([]Event, int) {
 	buf := bytes.NewBuffer(append([]byte{}, b...))
 	evs := t.collectEventsFromInput(buf, expire)
@@ -147,6 +156,9 @@ func H03_caps() {
 				clash = a + " < " + b
 			}
 		}
+	}
+	if clash != "" {
+		vsymNote("clash", h03Hex(clash))
 	}
 	vsymAssert(clash == "", "no defined key sequence is a proper prefix of another: "+ti.Name)
 	alt := vsymChoice("alt", 2) == 1
